@@ -30,7 +30,9 @@ if [ ! -x model_run ] || [ -n "$(find extracted driver.ml -newer model_run 2>/de
   rm -f *.cmi *.cmx *.o
   cp ../driver.ml driver.ml
   FILES=$(ocamlfind ocamldep -sort *.ml *.mli)
-  ocamlfind ocamlopt -O2 -w -a -o ../model_run $FILES 2>/dev/null || ocamlfind ocamlopt -w -a -o ../model_run $FILES
+  # built under a scratch name and moved into place: a check that is running keeps the binary it started with
+  ocamlfind ocamlopt -O2 -w -a -o ../model_run.new $FILES 2>/dev/null || ocamlfind ocamlopt -w -a -o ../model_run.new $FILES
+  mv -f ../model_run.new ../model_run
   rm -f driver.ml
   echo "build: model_run rebuilt"
 fi
